@@ -18,6 +18,7 @@ use vstd::prelude::*;
 use std::convert::TryFrom;
 use std::marker::PhantomData;
 use std::ops::Deref;
+use crate::Node::Id;
 use vstd::std_specs::iter::IteratorSpec;
 
 //@@ DEFINE ENV_REAL
@@ -134,7 +135,7 @@ pub open spec fn args_chain(args: Seq<AST>, envs: Seq<Environment>, env0: Enviro
 //@@ REPLACE
 //@@< var.node == Node::new_self()
 //@@> verif_is_self(&var.node)
-//@@ REPLACE
+//@@ REPLACE pin=4a19d924689a
 //@@< env.class.clone().ok_or_else($$)
 //@@> verif_ok_or_err(env.class.clone(), var.pos)
 //@@ HINT after
@@ -161,6 +162,121 @@ pub open spec fn args_chain(args: Seq<AST>, envs: Seq<Environment>, env0: Enviro
             && e == (Environment { is_expr: env.is_expr, ..envs.last() }),       //# parameters_are_defined_in_order_each_with_its_own_flag [C07,C09]
         // defining parameters defines names only (what gen_def relies on for the caught set)
         r matches Ok(e) ==> defines_only(*env, e),                               //# parameters_only_define_names [C08,C09]
+        r is Err ==> r->Err_0@.len() >= 1,                                       //# rejection_carries_a_diagnostic [-]
+//@@ END
+
+// ---- id_from_var, environment side (C07: the flag recorded for a defined name is `declared mutable && pattern mutable`;
+// ---- C09: every name the pattern binds is inserted, in order; nothing else changes).  What it RECORDS as constraints is
+// ---- unit GENDEF's subject; the function is extracted a second time here as id_from_var_env, with the other model ----------
+/// the entries of match_name's result for a typed pattern / the fields of the identifier otherwise (both are iterator code
+/// over the Identifier: functions of it)
+pub uninterp spec fn ent_seq(i: Identifier, ty: Name) -> Seq<(String, (bool, Name))>;
+pub uninterp spec fn fld_seq(i: Identifier) -> Seq<(bool, String)>;
+pub uninterp spec fn map_entries(m: HashMap<String, (bool, Name)>) -> Seq<(String, (bool, Name))>;
+impl Identifier {
+    #[verifier::external_body]
+    pub fn as_mutable(&self, mutable: bool) -> Identifier { unimplemented!() }
+}
+#[verifier::external_body]
+pub fn match_name(identifier: &Identifier, name: &Name, pos: Position) -> (r: TypeResult<HashMap<String, (bool, Name)>>)
+    ensures r matches Ok(m) ==> map_entries(m) == ent_seq(*identifier, *name), r is Err ==> r->Err_0@.len() >= 1,
+{ unimplemented!() }
+/// A-STD-COLL: iterating a HashMap by value yields its entries (in the map's own order)
+#[verifier::external_body]
+pub fn verif_entries(m: HashMap<String, (bool, Name)>) -> (r: Vec<(String, (bool, Name))>)
+    ensures r@ == map_entries(m),
+{ unimplemented!() }
+/// the fields of the (as_mutable'd) identifier; A-EXT: at least one (the code's own `panic!("cannot have empty identifier")`)
+#[verifier::external_body]
+pub fn verif_fields(i: &Identifier, pos: Position) -> (r: TypeResult<Vec<(bool, String)>>)
+    ensures r matches Ok(v) ==> v@.len() >= 1 && v@ == fld_seq(*i), r is Err ==> r->Err_0@.len() >= 1,
+{ unimplemented!() }
+/// HAVOCKED: `for (i, (expr, ty)) in enumerate(elements.iter().zip(&temp_names)) { .. constr.add(..) }` (itertools): only adds
+#[verifier::external_body]
+pub fn verif_havoc_tuple_elements(elements: &Vec<AST>, temp_names: &Vec<Name>, env: &Environment, constr: &mut ConstrBuilder)
+    ensures mono(*old(constr), *final(constr)),
+{ unimplemented!() }
+impl Name {
+    #[verifier::external_body]
+    pub fn tuple(names: &[Name]) -> Name { unimplemented!() }
+}
+
+/// one insertion: exactly what Environment::insert_var (proved above) does, with `flag` as the recorded mutability
+pub open spec fn ins(e_in: Environment, flag: bool, name: Seq<char>, e_out: Environment) -> bool {
+    exists|g: VarMapping, s: HashSet<(bool, Expected)>, x: Expected|
+        e_out == (Environment { vars: e_out.vars, var_mapping: e_out.var_mapping, ..e_in })
+        && hm(e_out.var_mapping) == hm(e_in.var_mapping).insert(name, next_offset(e_in, g, name) as usize)
+        && hs(s) == set![(flag, x)]
+        && #[trigger] hm(e_out.vars) == hm(e_in.vars).insert(fmt_var(name, next_offset(e_in, g, name) as usize), s)
+}
+pub open spec fn ins_chain(items: Seq<(bool, Seq<char>)>, envs: Seq<Environment>, e0: Environment, mutable: bool, n: int) -> bool {
+    &&& envs.len() == n + 1
+    &&& envs[0] == e0
+    &&& forall|k: int| 0 <= k < n ==> ins(envs[k], mutable && (#[trigger] items[k]).0, items[k].1, envs[k + 1])
+}
+
+/// the environments of a definition form the chain of insertions of exactly the names the pattern binds, in order, each
+/// recorded with `declared mutable && pattern mutable`
+pub open spec fn def_chain(i: Identifier, ty: Option<Name>, envs: Seq<Environment>, e0: Environment, mutable: bool) -> bool {
+    match ty {
+        Some(t) => envs.len() == ent_seq(i, t).len() + 1 && envs[0] == e0
+            && forall|k: int| 0 <= k < ent_seq(i, t).len() ==> ins(envs[k], mutable && (#[trigger] ent_seq(i, t)[k]).1.0, ent_seq(i, t)[k].0@, envs[k + 1]),
+        None => envs.len() == fld_seq(i).len() + 1 && envs[0] == e0
+            && forall|k: int| 0 <= k < fld_seq(i).len() ==> ins(envs[k], mutable && (#[trigger] fld_seq(i)[k]).0, fld_seq(i)[k].1@, envs[k + 1]),
+    }
+}
+
+#[verifier::loop_isolation(false)]
+//@@ FN src/check/constrain/generate/definition.rs | free | id_from_var | as=id_from_var_env | props=C07,C09,C03
+//@@ REPLACE count=2
+//@@< for ($fname, ($fmut, $name)) in match_name($$)?
+//@@> for ($fname, ($fmut, $name)) in mit: verif_entries(match_name($$1)?)
+//@@ REPLACE
+//@@< let fields = identifier.fields(var.pos)?;
+//@@> let fields = verif_fields(&identifier, var.pos)?;
+//@@ REPLACE pin=acb125c5235c
+//@@< for ($i, ($e, $t)) in enumerate(elements.iter().zip(&temp_names)) { $$ }
+//@@> verif_havoc_tuple_elements(elements, &temp_names, &env, constr);
+//@@ HINT after
+//@@< let identifier = Identifier::try_from(var)?.as_mutable(mutable);
+//@@> let ghost e0g = env; let ghost mut envs: Seq<Environment> = seq![env]; let ghost idg = identifier;
+//@@ LOOPINV count=2
+//@@< for ($fname, ($fmut, $name)) in match_name($$)?
+//@@> invariant mit.history@ + mit.iter.remaining() == ent_seq(idg, *ty), mit.history@.len() == mit.index@, mit.index@ <= ent_seq(idg, *ty).len(), mono(*old(constr), *constr), envs.len() == mit.index@ + 1, envs[0] == e0g, env == envs.last(), defines_only(e0g, env),
+//@@ INVCLAIM count=2
+//@@< for ($fname, ($fmut, $name)) in match_name($$)?
+//@@> forall|k: int| 0 <= k < mit.index@ ==> ins(envs[k], mutable && (#[trigger] ent_seq(idg, *ty)[k]).1.0, ent_seq(idg, *ty)[k].0@, envs[k + 1]), //# loop_every_entry_so_far_is_inserted_with_declared_and_pattern_flag [C07,C09]
+//@@ ITERNAME
+//@@< for ($fm3, $nm3) in &fields
+//@@> for ($fm3, $nm3) in fit3: &fields
+//@@ LOOPINV
+//@@< for ($fm3, $nm3) in &fields
+//@@> invariant fields@ == fld_seq(idg), fit3.index@ <= fields@.len(), mono(*old(constr), *constr), envs.len() == fit3.index@ + 1, envs[0] == e0g, env == envs.last(), defines_only(e0g, env), temp_names@.len() == fit3.index@,
+//@@ INVCLAIM
+//@@< for ($fm3, $nm3) in &fields
+//@@> forall|k: int| 0 <= k < fit3.index@ ==> ins(envs[k], mutable && (#[trigger] fld_seq(idg)[k]).0, fld_seq(idg)[k].1@, envs[k + 1]), //# loop_every_field_so_far_is_inserted_with_declared_and_pattern_flag [C07,C09]
+//@@ REPLACE
+//@@< for ($fm4, $nm4) in identifier.fields(var.pos)?
+//@@> for ($fm4, $nm4) in fit4: verif_fields(&identifier, var.pos)?
+//@@ LOOPINV
+//@@< for ($fm4, $nm4) in identifier.fields(var.pos)?
+//@@> invariant fit4.history@ + fit4.iter.remaining() == fld_seq(idg), fit4.history@.len() == fit4.index@, fit4.index@ <= fld_seq(idg).len(), mono(*old(constr), *constr), envs.len() == fit4.index@ + 1, envs[0] == e0g, env == envs.last(), defines_only(e0g, env),
+//@@ INVCLAIM
+//@@< for ($fm4, $nm4) in identifier.fields(var.pos)?
+//@@> forall|k: int| 0 <= k < fit4.index@ ==> ins(envs[k], mutable && (#[trigger] fld_seq(idg)[k]).0, fld_seq(idg)[k].1@, envs[k + 1]), //# loop_every_field_of_an_untyped_pattern_is_inserted_with_declared_and_pattern_flag [C07,C09]
+//@@ CLAIM before
+//@@< Ok(env) }
+//@@> assert(def_chain(idg, *ty, envs, e0g, mutable));  //# the_recorded_environments_form_the_definition_chain [C07,C09]
+//@@ HINT before count=4
+//@@< env = env.insert_var($$, $$, $$, $$);
+//@@> let ghost e_prev = env;
+//@@ HINT after count=4
+//@@< env = env.insert_var($$, $$, $$, $$);
+//@@> proof { envs = envs.push(env); assert(ins(e_prev, $$1, ($$2)@, env)); }
+    ensures
+        mono(*old(constr), *final(constr)),                                      //# visits_are_never_forgotten [C09]
+        r matches Ok(e) ==> defines_only(*env, e),                               //# a_definition_only_defines_names [C07,C08,C09]
+        r matches Ok(e) ==> exists|i: Identifier, envs: Seq<Environment>| def_chain(i, *ty, envs, *env, mutable) && e == envs.last(), //# every_bound_name_is_inserted_in_order_with_declared_and_pattern_flag [C07,C09]
         r is Err ==> r->Err_0@.len() >= 1,                                       //# rejection_carries_a_diagnostic [-]
 //@@ END
 
@@ -393,7 +509,7 @@ pub open spec fn flow_post(ast: AST, env: Environment, r: Constrained, b: Constr
 }
 
 //@@ FN src/check/constrain/generate/control_flow.rs | free | gen_flow | props=C09,C08,C07,C03
-//@@ REPLACE
+//@@ REPLACE pin=92d9ef93045a
 //@@< let (raises, errs): (Vec<Result<_, _>>, Vec<Result<_, _>>) = cases $$ .partition(Result::is_ok); if !errs.is_empty() { $$ } let raises = raises.into_iter().map(Result::unwrap).collect();
 //@@> let raises: HashSet<TrueName> = verif_havoc_arm_types(cases)?;
 //@@ REPLACE
@@ -613,19 +729,19 @@ pub open spec fn fundef_post(ast: AST, env: Environment, ctx: Context, r: Constr
 
 #[verifier::loop_isolation(false)]
 //@@ FN src/check/constrain/generate/definition.rs | free | gen_def | props=C08,C09,C03
-//@@ REPLACE
+//@@ REPLACE pin=ea86473ee854
 //@@< let (class, non_nullable_class_vars) = match &id.node { $$ };
 //@@> let (class, non_nullable_class_vars) = verif_havoc_init_fields(id, env, ctx)?;
-//@@ REPLACE
+//@@ REPLACE pin=367815e986d5
 //@@< let (raises, errs): (Vec<(Position, _)>, Vec<_>) = raises $$ .partition($$); if !errs.is_empty() { $$ }
 //@@> let raises_ast_g = Ghost(raises@); let raises = verif_declared_raises(raises)?;
 //@@ REPLACE
 //@@< Name::from(clss::EXCEPTION)
 //@@> verif_exception_name()
-//@@ REPLACE
+//@@ REPLACE pin=187439c9e5d1
 //@@< raises.into_iter().map($$).collect()
 //@@> verif_collect_raises(raises)
-//@@ REPLACE
+//@@ REPLACE pin=17e3c14c08bf
 //@@< if let Some(class) = class { $$ }
 //@@> if let Some(class) = class { verif_havoc_unassigned_report(&class, &body_env, id.pos)?; }
 //@@ ITERNAME
@@ -664,7 +780,7 @@ pub uninterp spec fn tn_of(lit: Seq<char>) -> TrueName;
 pub fn verif_one_name(lit: &str) -> (r: HashSet<TrueName>) ensures hs(r) == set![tn_of(lit@)] { unimplemented!() }
 
 //@@ FN src/check/constrain/generate/statement.rs | free | check_raises_caught | props=C08,C03
-//@@ REPLACE
+//@@ REPLACE pin=cb086cc5fb25
 //@@< raises .iter() .filter($$) .map($$) .collect()
 //@@> verif_uncaught(raises, env, ctx, pos)
     ensures
